@@ -314,6 +314,61 @@ def d2_backup_first(chk: Check, model: CliModel) -> None:
                    "truncating step reached with " + why)
 
 
+_POSITIVE_REBIND = """
+def main():
+    args = processcli()
+    if not nodes:
+        args.backup = False
+    write_output_document(args)
+"""
+
+
+def _option_rebinds(fn_node: ast.AST, option: str) -> List[ast.AST]:
+    out: List[ast.AST] = []
+    for n in walk_local(fn_node):
+        if isinstance(n, ast.Attribute) and n.attr == option and \
+                isinstance(n.ctx, (ast.Store, ast.Del)):
+            out.append(n)
+        if isinstance(n, ast.Call) and src(n.func) in ("setattr", "delattr") \
+                and len(n.args) >= 2 and \
+                isinstance(n.args[1], ast.Constant) and \
+                n.args[1].value == option:
+            out.append(n)
+    return out
+
+
+def d2b_backup_choice_kept(chk: Check) -> None:
+    """C17-D2 proves 'backup before truncation wherever --backup *may be
+    set*' inside the writers.  That is only worth something if the option
+    the writer sees is the one the user gave: a tool that clears it on the
+    way (e.g. 'nothing matched, so no backup') still rewrites the file --
+    without the promised pre-image."""
+    prog = chk.prog
+    chk.rule("C17-D2b", "no function of yaml-set, yaml-merge or "
+             "eyaml-rotate-keys re-binds the parsed --backup option",
+             floor=20)
+    sample = ast.parse(_POSITIVE_REBIND).body[0]
+    if len(_option_rebinds(sample, "backup")) != 1:
+        raise AnalysisError("option re-binding detector lost its positive "
+                            "sample")
+    for fi in prog.functions.values():
+        if fi.module.relpath not in (SET, MERGE, ROTATE):
+            continue
+        bad = _option_rebinds(fi.node, "backup")
+        for b in bad:
+            st = b
+            while parent(st) is not None and not isinstance(st, ast.stmt):
+                st = parent(st)
+            chk.fail("C17-D2b", fi, st, "{}: --backup re-bound".format(
+                fi.short),
+                "`{}` overrides the user's --backup before the writer runs: "
+                "the file is still rewritten but no .bak copy of the "
+                "pre-image is taken".format(src(st)[:60]))
+        if not bad:
+            chk.ok("C17-D2b", fi, fi.node, fi.short,
+                   "does not assign the option", False)
+
+
 # ---------------------------------------------------------------- D4 ------
 def d4_restore(chk: Check, model: CliModel) -> None:
     prog = chk.prog
@@ -724,6 +779,7 @@ def run(chk: Check) -> None:
     model = CliModel(chk.prog)
     d1_no_exit_after_write(chk, model)
     d2_backup_first(chk, model)
+    d2b_backup_choice_kept(chk)
     d3_merge(chk, model)
     d4_restore(chk, model)
     d5_fault_points(chk, model)
@@ -735,3 +791,10 @@ def run(chk: Check) -> None:
     funcs = [f for f in chk.prog.functions.values()
              if f.module.relpath in (SET, MERGE, ROTATE)]
     d8_loaded_documents(chk, funcs, "C17-D7", 3)
+    # a required-match instruction that is dropped on the way turns the
+    # gathering query into a creating one: the run that should have failed
+    # before writing rewrites the file
+    from rules.shared import keyword_coupling_rule
+    keyword_coupling_rule(chk, "C17-D9", (SET, MERGE, ROTATE), 5)
+    from rules.c19 import d9_whole_file_writes_truncate
+    d9_whole_file_writes_truncate(chk, "C17-D10", (SET, MERGE, ROTATE))
